@@ -1,3 +1,4 @@
+import BigDec.Model.ToF64
 import BigDec.Model.Cmp
 import BigDec.Spec.Exact
 import BigDec.Spec.Round
@@ -31,8 +32,8 @@ def handle (op : String) (args : List String) (impl : String) : Verdict :=
   | "cmp", [a, b] =>
     match parseDec? a, parseDec? b with
     | some a, some b =>
-      let meq := eqDec preF64 a b
-      let mc := cmpDec preF64 a b
+      let meq := eqDec F64.preCode a b
+      let mc := cmpDec F64.preCode a b
       let sc := cmpValues a b
       let model := render meq mc
       let spec := render (sc == .eq) sc
@@ -42,6 +43,19 @@ def handle (op : String) (args : List String) (impl : String) : Verdict :=
       { model := model, mi := model == impl, si := impl == spec, sm := model == spec, tag := tag,
         trivial := a.int == 0 || b.int == 0 }
     | _, _ => badInput "cmp args"
+  | "hbl", [nb, j, k] =>
+    match parseNat? nb, parseNat? j, parseNat? k with
+    | some nb, some j, some k =>
+      -- the bit-length shortcut on a = 2^N - 1, b = 2^j: whenever it answers "less", a < b * 10^k must hold
+      let a := 2 ^ nb - 1
+      let b := 2 ^ j
+      let m := highestBitLess F64.preCode a b k
+      let truth := decide (a < b * 10 ^ k)
+      { model := b01 m, mi := b01 m == impl, si := impl == "0" || truth, sm := !m || truth,
+        tag := "hbl:" ++ (if truth then "less" else "not-less") ++ (if impl == "1" then ":shortcut" else ":undecided")
+               ++ (if preF64 k == F64.preCode k then "" else "+hardware-estimate-differs"),
+        trivial := false }
+    | _, _, _ => badInput "hbl args"
   | "sort", xs =>
     match xs.mapM parseDec?, (impl.splitOn ";").mapM parseDec? with
     | some ins, some outs =>
